@@ -5,12 +5,15 @@
     What is machine-checked here (_partial): every operation of the regenerated quantity layer that the models use is a congruence for
     "same kind family and same SI magnitude" (including every comparison outside the tolerance band of the larger unit, which is the
     formal content of the property's exclusion clause); and, at formula level, the motor law, the step count of a run and the angle
-    functions depend on SI magnitudes only.  The lifting of these congruences through the whole run (the parametricity argument of
-    DESIGN 2.2') is NOT mechanised.  The whole-run statement is covered by (a) the bit-exact correspondences of every model family, whose
+    functions depend on SI magnitudes only.  WHOLE RUNS: [C07_whole_run_partial] — in the regime where the solver model is proved to be
+    the Euler recurrence (never held, constant duty cycle above the dead zone, constant step, constant load; chains of any length, any
+    units, any schedule of runs and continuations) two descriptions of the same system record output speeds and positions with equal SI
+    magnitudes at every instant.  Outside that regime (held instants, rules, stop conditions, varying loads: every place where the code
+    COMPARES quantities) the lifting is NOT mechanised.  The whole-run statement is there covered by (a) the bit-exact correspondences of every model family, whose
     generators draw every input quantity in a random unit of its kind, so that unit-dependent behaviour of the code that the models do
     not share is a disagreement, and (b) the metamorphic search, which re-expresses all inputs of a scenario and compares SI outputs. *)
 From Coq Require Import ZArith QArith Reals Lra String List Bool PrimFloat.
-From GP Require Import ArithDef FloatUtil UnitsCore PyUnits RealArith Spec UnitsR UnitsCmp UnitsDim QOps QOpsR Motor MotorR Solver Relations RelR UnitIndep.
+From GP Require Import ArithDef FloatUtil UnitsCore PyUnits RealArith Spec UnitsR UnitsCmp UnitsDim QOps QOpsR Motor MotorR Solver SolverProofs SolverSI Relations RelR UnitIndep RunIndep.
 From GP.gen Require Import UnitsGen.
 Import ListNotations.
 Open Scope R_scope.
@@ -57,5 +60,24 @@ Proof. exact cos_unit_independent. Qed.
 Theorem C07_tan : forall (a b : qty RA) ta tb, same a b -> base_kind (qk a) = KAngularPosition -> @qtan RA a = Ok ta -> @qtan RA b = Ok tb -> ta = tb.
 Proof. exact tan_unit_independent. Qed.
 
+(** [same_system c c' load load' dt dt' W0 TM I0 IM L JJ DT]: the two descriptions have motor constants, load torque, equivalent inertia
+    and time step of the same SI magnitudes (each written in any unit) and the same products of gear ratios and of efficiencies;
+    [uniform D dt h]: never held, duty cycle D and step dt at every instant of h. *)
+Theorem C07_whole_run_partial : forall (c c' : @chain RA) load load' dt0 dt0' W0 TM I0 IM L JJ DT D ops ops' p w p' w' st st',
+  same_system c c' load load' dt0 dt0' W0 TM I0 IM L JJ DT ->
+  I0 / IM < D -> 0 <= I0 /\ 0 < IM /\ 0 < W0 /\ 0 < JJ ->
+  exec c load ops (initial p w) = Ok st -> exec c' load' ops' (initial p' w') = Ok st' ->
+  uniform D dt0 (y_hist st) -> uniform D dt0' (y_hist st') ->
+  forall t0 s0 pre t0' s0' pre', y_hist st = (pre ++ [(t0, s0)])%list -> y_hist st' = (pre' ++ [(t0', s0')])%list ->
+  forall w0 p0 w0' p0' W00 P00, lastq (s_spd s0) = Ok w0 -> lastq (s_pos s0) = Ok p0 -> si w0 = Ok W00 -> si p0 = Ok P00 ->
+                                lastq (s_spd s0') = Ok w0' -> lastq (s_pos s0') = Ok p0' -> si w0' = Ok W00 -> si p0' = Ok P00 ->
+  forall front t s rest front' t' s' rest',
+    y_hist st = (front ++ (t, s) :: rest)%list -> y_hist st' = (front' ++ (t', s') :: rest')%list -> length rest = length rest' ->
+  exists wk pk wk' pk' Wk Pk,
+    lastq (s_spd s) = Ok wk /\ lastq (s_pos s) = Ok pk /\ lastq (s_spd s') = Ok wk' /\ lastq (s_pos s') = Ok pk' /\
+    si wk = Ok Wk /\ si wk' = Ok Wk /\ si pk = Ok Pk /\ si pk' = Ok Pk.
+Proof. exact every_instant_unit_independent. Qed.
+
 Print Assumptions C07_comparison_decisive.
+Print Assumptions C07_whole_run_partial.
 Print Assumptions C07_motor_torque.
